@@ -35,7 +35,7 @@ def eff(r):
     """the reaction as the client experiences it: a 'wrong type' reply of a reader-initiated type
     (KeepAlive, ROAccessReport, ReaderEventNotification) is, on a tree that never treats those as
     replies, no reply at all"""
-    if r.startswith("W:") and int(r[2:]) in NEVER_REPLY:
+    if r.startswith("W:") and int(r.split(":")[1]) in NEVER_REPLY:
         return "N"
     return r
 
@@ -239,6 +239,21 @@ def sessions(tier):
                         ("L:32:64:0", "R:0:0:0", ["P=" + probe]), ("R:64:32:0", "L:0:0:0", ["P=FE110," + probe]), ("L:32:32:0", "S", ["V212"])):
             add(2, a, b, to + o)
             add(1, a, b, to + o)
+    # grid 10 — which replies let Connect succeed: {expected response, ERROR_MESSAGE, another type} x status
+    # {Success, 110 M_UnsupportedVersion, 101 M_FieldError, others}, for each negotiation message, x what surrounds it
+    sts = [0, VER_UNSUPPORTED, 101, 100, 109, 401] + ([1, 99, 111, 65535] if thorough else [])
+    q_replies = ["R:32:64:%d" % c for c in sts] + ["R:64:64:%d" % c for c in sts] + ["R:32:32:%d" % c for c in sts] + ["E:%d" % c for c in sts] \
+        + ["W:%d:%d" % (t, c) for t in (57, 12, 11) for c in sts] + ["W:57", "W:12"]
+    s_replies = ["R:0:0:%d" % c for c in sts] + ["E:%d" % c for c in sts] + ["W:%d:%d" % (t, c) for t in (56, 12, 67) for c in sts] + ["W:56", "W:12"]
+    for a in q_replies:
+        for b in ("R:0:0:0", "E:0", "W:12:0"):
+            for o in ([], ["LA"], ["K1", "K2"]) + (([tq],) if thorough else ()):
+                add(2, a, b, o)
+        add(1, a, "R:0:0:0")
+    for a in ("R:32:64:0", "R:64:32:0", "R:0:32:0", "R:96:64:0") + (tuple(resp_ok) if thorough else ()):
+        for b in s_replies:
+            for o in ([], ["LA"], ["K1", "K2"]) + (([tq],) if thorough else ()):
+                add(2, a, b, o)
     # grid 4 — version bytes whose low five bits are not zero (the decoder must ignore them)
     if thorough:
         extra = [(cb, mb) for cb in range(256) for mb in range(256) if (cb & 31) or (mb & 31)]
@@ -307,9 +322,10 @@ def quiet(r1, r2):
     return kind(r1) in "SL" or kind(r2) in "SL"
 
 
-def model_request(line, prestamp, override, go=None):
+def model_request(line, prestamp, override, go=None, strict=False):
     f = line.split()
-    g = lambda r: "G" if r.startswith("G") else eff(r)
+    # for the model a reply of another type is a reply of another type, whatever status it carries
+    g = lambda r: "G" if r.startswith("G") else ":".join(eff(r).split(":")[:2]) if eff(r).startswith("W:") else eff(r)
     opts = f[4:]
     tr = traffic_of(opts)
     if tr is not None:
@@ -335,7 +351,7 @@ def model_request(line, prestamp, override, go=None):
                     k2 += 1
                 elif fr[1] == 72:
                     k1 += 1
-    return "%d %d %s%s %d+%d %d+%d %s %s %s" % (prestamp, override, f[1], "T" if has_timeout(opts) else "", k1, d1, k2, d2, g(f[2]), g(f[3]), later)
+    return "%d %d%s %s%s %d+%d %d+%d %s %s %s" % (prestamp, override, "s" if strict else "", f[1], "T" if has_timeout(opts) else "", k1, d1, k2, d2, g(f[2]), g(f[3]), later)
 
 
 def frames(s):
@@ -378,7 +394,9 @@ def demanded(cmax, r1, r2, to=True):
         if st == VER_UNSUPPORTED:
             return dict(neg=True, sets=0, outcome="proceeds", version=1, why="query rejected as unsupported version")
         if st == 0:
-            return dict(neg=True, sets=None, outcome=None, version=None, why="ERROR_MESSAGE with status Success (not judged)")
+            # an ERROR_MESSAGE is an error reply; one that carries Success has rejected nothing as an unsupported
+            # version and reports no version: "any other error reply … fails the connection attempt"
+            return dict(neg=True, sets=0, outcome="fails", version=None, why="ERROR_MESSAGE with status Success answering the query")
         return dict(neg=True, sets=0, outcome="fails", version=None, why="other error reply to the query")
     if k == "W":
         return dict(neg=True, sets=0, outcome="fails", version=None, why="wrong reply type to the query")
@@ -406,7 +424,8 @@ def demanded(cmax, r1, r2, to=True):
         return dict(neg=True, sets=1, outcome="fails", version=chosen, why="refused switch")
     if k2 == "E":
         if int(q[1]) == 0:
-            return dict(neg=True, sets=1, outcome=None, version=chosen, why="ERROR_MESSAGE/Success to the switch (not judged)")
+            # only a SET_PROTOCOL_VERSION_RESPONSE confirms the switch; an ERROR_MESSAGE is a reply of another type
+            return dict(neg=True, sets=1, outcome="fails", version=chosen, why="ERROR_MESSAGE with status Success answering the switch")
         return dict(neg=True, sets=1, outcome="fails", version=chosen, why="error reply to the switch")
     if k2 == "W":
         return dict(neg=True, sets=1, outcome="fails", version=chosen, why="wrong reply type to the switch")
@@ -544,7 +563,8 @@ def run(tier, seed, replay=None):
     res.assumptions = vlib.TRUSTED_COMMON + [
         "the scripted reader (harness/llrp/c06_test.go, own frame code) and net.Pipe deliver bytes faithfully; 'frames before/after the outcome' relies on net.Pipe writes completing only when read",
         "reader reactions are the finite set enumerated here (version bytes v<<5 for v in 0..7 + low-bit variants, the swept status codes, the listed wrong types, one oversize size, three undecodable payloads, silence; at most one KEEPALIVE at each of the two points inside negotiation); the theorems quantify over all reactions and any number of keep-alives symbolically",
-        "an ERROR_MESSAGE carrying status Success, undecodable replies, and the version of acknowledgements written DURING negotiation are compared with the model only (the property text does not name them)",
+        "undecodable replies and the version of acknowledgements written DURING negotiation are compared with the model only (the property text does not name them)",
+        "Connect may succeed only after the expected response type carrying Success, for both negotiation messages; the one exception is ERROR_MESSAGE/M_UnsupportedVersion answering the query (1.0.1, no switch). An ERROR_MESSAGE carrying Success, or another message type whatever status it carries, must fail Connect",
         "a negotiation message that gets no answer (none at all; none while KEEPALIVEs keep the link alive; one that arrives after the client's timeout) must not lead to a successful Connect: without an answer the reader's maximum is not known and nothing was rejected as an unsupported version. A client with a timeout must fail; one without may fail or still be waiting (observed for 300 ms). How many KEEPALIVEs are acknowledged during the wait is a matter of time: the model is asked about the observed numbers",
         "a frame is 'sent' when the write loop writes it: of the acknowledgements a reader finds after it had stopped reading around its last negotiation answer, the first (its write was under way on net.Pipe when the answer was sent) counts as written during negotiation, the others as written afterwards; 'the client has acted on the answer' is observed as Connect proceeding/returning or Client.version changing (else 25 ms)",
         "a 'wrong type' reply of a type the tree never delivers as a reply (probed: KeepAlive/ROAccessReport/ReaderEventNotification after fix 6decaf2) is the no-reply reaction",
@@ -602,7 +622,7 @@ def run(tier, seed, replay=None):
     # configuration is run a second time, few at a time (the sessions with a silent reader depend
     # on a client timeout, and the first pass runs sixteen sessions at a time); the second
     # observation is the one that is judged
-    o_conf1 = vlib.run_oracle("c06", "\n".join(model_request(c[0], 0, 0, c[1]) for c in cases) + "\n")[1].split("\n")
+    o_conf1 = vlib.run_oracle("c06", "\n".join(model_request(c[0], 0, 0, c[1], strict=True) for c in cases) + "\n")[1].split("\n")
     suspicious = []
     for i, (line, g) in enumerate(cases):
         cmax, r1, r2, opts, ob = observe(line, g)
@@ -622,14 +642,19 @@ def run(tier, seed, replay=None):
     reqs = [c[0] for c in cases]
     o_today = vlib.run_oracle("c06", "\n".join(model_request(l, 1, 0, g) for l, g in cases) + "\n")[1].split("\n")
     o_conf = vlib.run_oracle("c06", "\n".join(model_request(l, 0, 0, g) for l, g in cases) + "\n")[1].split("\n")
+    # the repaired reading of ERROR_MESSAGE/Success answering the query (Negotiate.strict_query): differs from the
+    # model of the code as it stands in exactly those sessions; Go may correspond to either
+    o_strict = vlib.run_oracle("c06", "\n".join(model_request(l, 0, 0, g, strict=True) for l, g in cases) + "\n")[1].split("\n")
+    o_strict += [""] * (len(o_conf) - len(o_strict))
     if len(o_today) < len(reqs) or len(o_conf) < len(reqs):
         res.violation("oracle-run", "oracle gave %d/%d answers" % (len(o_today), len(reqs)), dict(kind="oracle"), False)
         return res.finish()
 
     dist, nontriv, samples, sampled, differ = {}, set(), [], set(), []
     n_today = n_conf = n_neither = 0
+    n_lenient = n_strict = 0
     spv_payloads = {}
-    for (line, g), mt, mc in zip(cases, o_today, o_conf):
+    for (line, g), mt, mc, ms in zip(cases, o_today, o_conf, o_strict):
         cmax, r1, r2, opts, ob = observe(line, g)
         f = line.split()
         shape = [o for o in opts if not o.startswith("T")]
@@ -656,6 +681,12 @@ def run(tier, seed, replay=None):
             res.violation(sig, "%s  [session: client max %d, reader answers %s then %s%s; observed %s]" % (
                 what, cmax, f[2], f[3], (", options " + " ".join(shape)) if shape else "", g), replay_d)
         a, b = same(ob, mo_t, r1), same(ob, mo_c, r1)
+        if cmax > 1 and r1 == "E:0":
+            mo_s = project_model(ms)
+            b_s = mo_s is not None and same(ob, mo_s, r1)
+            n_lenient += b
+            n_strict += b_s
+            b = b or b_s
         n_today += a
         n_conf += b
         if not a and not b:
@@ -669,6 +700,9 @@ def run(tier, seed, replay=None):
                 ("switch-refused", plain and cmax == 2 and len(ob["before"]) == 2 and r2.startswith("R:") and ob["outcome"] == "fails"),
                 ("query-unsupported", plain and cmax == 2 and r1 == "E:%d" % VER_UNSUPPORTED),
                 ("query-error-109", cmax == 2 and r1 == "E:109"),
+                ("query-answered-by-error-message-with-success", plain and cmax == 2 and r1 == "E:0" and r2 == "R:0:0:0"),
+                ("switch-answered-by-error-message-with-success", plain and cmax == 2 and r1 == "R:32:64:0" and r2 == "E:0"),
+                ("switch-answered-by-another-type-with-success", plain and cmax == 2 and r1 == "R:32:64:0" and r2 == "W:12:0"),
                 ("wrong-type", plain and cmax == 2 and kind(r1) == "W"),
                 ("limited-to-1.0.1", cmax == 1 and kind(r1) == "R"),
                 ("keepalives-at-both-points", shape == ["K1", "K2"] and len(ob["before"]) == 4),
@@ -703,9 +737,13 @@ def run(tier, seed, replay=None):
             "cfg_today (later_frames_negotiated_refuted applies)" if n_today == n else "mixed"
     res.notes.append("Go corresponds to model configuration: %s (today %d/%d, conforming %d/%d, neither %d)" % (which, n_today, n, n_conf, n, n_neither))
     res.notes.append("types never delivered as replies by this tree (probed): %s" % sorted(NEVER_REPLY))
+    reading = "as the code stood (1.0.1-only reader; query_success_only_after_expected_refuted applies)" if n_lenient and not n_strict else \
+              "repaired (unexpected response; connect_succeeds_only_after_expected_success applies)" if n_strict and not n_lenient else \
+              "mixed/none (lenient %d, strict %d)" % (n_lenient, n_strict)
+    res.notes.append("ERROR_MESSAGE/Success answering the query is read by Go: %s" % reading)
     res.coverage.update(
         evaluations=n, distinct_nontrivial=len(nontriv),
-        rule="the union of nine completely enumerated grids. (1) reactions: client max {1.0.1, 1.1} x reaction to GET_SUPPORTED_VERSION "
+        rule="the union of ten completely enumerated grids. (1) reactions: client max {1.0.1, 1.1} x reaction to GET_SUPPORTED_VERSION "
              "(response with current,max in 0..7 and status in {0,110,100}; ERROR_MESSAGE with those statuses; wrong types; oversize; three undecodable "
              "payloads; silence) x reaction to SET_PROTOCOL_VERSION (same kinds). (2) status codes (%s), one session each in the four places a status "
              "can stand: ERROR_MESSAGE to the query, status of the query's response, status of the switch's response, ERROR_MESSAGE to the switch. "
@@ -726,11 +764,15 @@ def run(tier, seed, replay=None):
              "(9) a negotiation message left unanswered on a live link: reaction S (KEEPALIVEs instead of an answer, for ever) or L (KEEPALIVEs, then the response after "
              "one and a half client timeouts) to the query x {switch accepted, S, L} and {successful responses, E:110} x {S, L accepted, L refused} to the switch, "
              "clients with a timeout (240 ms) and without, + order / traffic / header-version variants and client max 1.0.1 (thorough: every late response 0..7 x 0..7 x status {0,110,100}). "
+             "(10) which replies let Connect succeed: {expected response, ERROR_MESSAGE, another type (three types, with and without an LLRPStatus)} x status {0, 110, 101, 100, 109, 401} "
+             "for the query (x three readers' version bytes; x {switch accepted, answered by ERROR_MESSAGE/Success, by another type/Success}) and for the switch (x four readers that need it), "
+             "x {plain, ack first, keep-alives at both points}. "
              "'Before the end of negotiation' = read by the reader before it sent its last negotiation answer. Each session = Connect on net.Pipe, then two SendMessage requests and one or two KEEPALIVEs "
              "in the stated order, every frame's version bits recorded; non-trivial iff client max is 1.1 (negotiation takes place); distinct by "
              "(client max, reaction 1, reaction 2, keep-alive points, order)" % sweep_desc,
         samples=samples, input_distribution=dist, traces_validated_against_impl=n, exhaustive=not replay,
         trusted_base=res.assumptions, model_configuration_matched=which, tree_probe=probe,
+        errmsg_success_answering_query_read=reading,
         sessions_matching_cfg_today=n_today, sessions_matching_conforming=n_conf, sessions_matching_neither=n_neither,
         oversize_first_reply_crashes=crashed, sessions_rerun_for_confirmation=reruns,
         observation_set_protocol_version_payloads=spv_payloads)
